@@ -221,6 +221,16 @@ pub fn gen_getvalues_body(cx: &mut Ctx, max_pair: usize) -> Vec<u8> {
 
 /// One noise record for the given phase. Returns the record; the models decide what it elicits.
 pub fn gen_noise(cx: &mut Ctx, phase: Phase, own: u16, max_pair: usize) -> Rec {
+    let mut r = gen_noise_inner(cx, phase, own, max_pair);
+    // a skipped record near the 16-bit limit: let content + padding exceed 65535 in half of the cases
+    if r.content.len() >= 65281 && cx.ch.chance(1, 2) {
+        r.padding = cx.ch.one_of(&[255u8, 254, 255]);
+        cx.probe("noise_huge_record_over_64k_total");
+    }
+    r
+}
+
+fn gen_noise_inner(cx: &mut Ctx, phase: Phase, own: u16, max_pair: usize) -> Rec {
     let pad = gen_padding(cx);
     let allow_huge = matches!(phase, Phase::Stream | Phase::Params | Phase::Idle);
     let small = |cx: &mut Ctx| -> Vec<u8> {
